@@ -135,6 +135,21 @@ PROPS["C17"] = {
 }
 
 
+PROPS["C06"] = {
+    "level": "exploration",
+    "budget_s": {"quick": 70, "thorough": 2400},
+    "modes": [{"name": "", "runs": {"quick": 1200, "thorough": 30000}, "chunk": 50}],
+    "rule": ("one run = 2 (quick) / 2-3 (thorough) tenants on ONE database behind ONE registry whose Contextualizer takes the network id from the request (real routers and gRPC servers serve all tenants; same strings used in all tenants). "
+             "The other tenants are populated, a fixed set of their observables is recorded (full listing, 5 query shapes over REST and gRPC, 5 checks, 5 expands, hash of their raw rows), then 4-25 API operations run in tenant A "
+             "(the C04 mix incl. delete-by-empty-query over gRPC and deletes aimed at relationships that exist only in another tenant). After EVERY operation: every recorded observable of every other tenant is unchanged and equals its model; "
+             "tenant A's listing and checks equal A's own model; a relationship stored only in another tenant is not allowed in A. non-trivial = the other tenants hold data; distinct = hash of the history."),
+    "probes": ["ops_in_A", "probe_delete_in_A", "probe_foreign_check"],
+    "real": REAL_S + ["ketoctx.Contextualizer / HTTP middleware / gRPC interceptor options of the real registry (driver.NewDefaultRegistry) carry the tenant"], "stub": STUB_S,
+    "fault_kinds": {},
+    "assumptions": ["tenants are distinguished by the network id returned by the Contextualizer, as in a multi-tenant embedding of keto"],
+}
+
+
 def evidence(prop, spec, tier, seed, records, deaths, unfinished, planned, wall_s, sim_wall_s, build_s, nworkers, n_new, known_hits):
     runs = 0
     execs = 0
